@@ -31,6 +31,10 @@ func ioFail(sig, input, detail string) {
 }
 
 func emitLine(toks []string) {
+	if len(toks) > 0 && toks[0] == "cyield" { // oracle-only family: no model line
+		run.Safe(strings.Join(toks, " "), func() string { runCYield(toks); return "" })
+		return
+	}
 	var line, ans string
 	op := strings.Join(toks, " ")
 	ans = run.Safe(op, func() string {
@@ -355,11 +359,18 @@ func main() {
 			emitLine(genConsumer(rnd))
 		}
 	}
+	ncy := 24
+	if run.Tier == "thorough" {
+		ncy = 200
+	}
+	run.Safe("cyield", func() string { genCYield(run.Seed, ncy); return "" })
 	run.Finish("producer cases: random script (success/error x checker none/passes/fails/fails-on-odd-partition) x inputs (script length -3..+3) x " +
 		"partitioner (manual, hash with arbitrary uint32 hashes, FNV hash, round-robin, custom: error/echo/constant/mixed) x topic partition " +
 		"configuration (default/override, changed between inputs) x Return.Successes/Errors x sequential|2-6 concurrent senders; " +
 		"multi cases: 2-4 async/sync mocks from one Config, SetPartitions from 1-3 map objects the test keeps, changes afterwards and hands to other mocks, " +
 		"re-configuration of single mocks, interleaved with sends (round robin / echo / hash partitioners); " +
+		"cyield (oracle only): 2-8 goroutines yield 20-200 messages each on one partition consumer with channel buffer 0-16 while a reader checks " +
+		"consecutive offsets, per-yielder order and the high-water mark, 3 rounds per case; " +
 		"consumer cases: random registrations, yields, reads, consumes (right/wrong/any offset, unknown partition), drain demands, every " +
 		"order of partition Close/AsyncClose/consumer Close. non-trivial = distinct op line with at least one success outcome / delivered message")
 }
